@@ -156,33 +156,34 @@ func runC12(c *Ctx) {
 			continue
 		}
 		finfo := fi.Pkg.TypesInfo
-		ast.Inspect(fi.Decl.Body, func(n ast.Node) bool {
-			as, ok := n.(*ast.AssignStmt)
-			if !ok || len(as.Lhs) != 1 || len(as.Rhs) != 1 {
-				return true
+		for _, fs := range fieldStores(finfo, fi.Decl.Body) {
+			if !isNamed(fs.Owner, load.APIPkg, "StatefulSetStatus") {
+				continue
 			}
-			switch {
-			case isStatusField(finfo, as.Lhs[0], "ObservedGeneration"):
+			as := fs.Node
+			lhsText := types.ExprString(fs.Base) + "." + fs.Field
+			switch fs.Field {
+			case "ObservedGeneration":
 				nGen++
-				name := fmt.Sprintf("%s: %s = %s", fi.Obj.Name(), types.ExprString(as.Lhs[0]), types.ExprString(as.Rhs[0]))
-				sel, ok := ast.Unparen(as.Rhs[0]).(*ast.SelectorExpr)
+				name := fmt.Sprintf("%s: %s = %s", fi.Obj.Name(), lhsText, types.ExprString(fs.Rhs))
+				sel, ok := ast.Unparen(fs.Rhs).(*ast.SelectorExpr)
 				good := ok && sel.Sel.Name == "Generation" && isNamed(finfo.TypeOf(sel.X), load.APIPkg, "StatefulSet")
 				if good && fi == r.FI {
 					id, isID := sel.X.(*ast.Ident)
 					good = isID && finfo.ObjectOf(id) == finfo.ObjectOf(r.Set)
 				}
 				c.Check(good, "C12.3-observed-generation-source", name, as.Pos(), "assigned from the reconciled set's metadata.generation", "observedGeneration is taken from something other than the reconciled set's generation")
-			case isStatusField(finfo, as.Lhs[0], "CurrentRevision"):
+			case "CurrentRevision":
 				nCur++
-				name := fmt.Sprintf("%s: %s = %s", fi.Obj.Name(), types.ExprString(as.Lhs[0]), types.ExprString(as.Rhs[0]))
+				name := fmt.Sprintf("%s: %s = %s", fi.Obj.Name(), lhsText, types.ExprString(fs.Rhs))
 				if fi == r.FI {
-					c.Check(r.Fn.Term(as.Rhs[0]).Key() == c.WantTerm(r.Fn, as.Pos(), "$1.Name", r.CurRev).Key(), "C12.3-current-revision-source", name, as.Pos(),
+					c.Check(r.Fn.Term(fs.Rhs).Key() == c.WantTerm(r.Fn, as.Pos(), "$1.Name", r.CurRev).Key(), "C12.3-current-revision-source", name, as.Pos(),
 						"assigned from the current-revision parameter's name", "status.currentRevision is assigned from something else")
-					return true
+					continue
 				}
 				// completion rule
 				f2, a2 := c.Analysis(fi)
-				lsel := ast.Unparen(as.Lhs[0]).(*ast.SelectorExpr)
+				lselX := fs.Base
 				var setParam *ast.Ident
 				for _, pf := range fi.Decl.Type.Params.List {
 					for _, pn := range pf.Names {
@@ -193,15 +194,14 @@ func runC12(c *Ctx) {
 				}
 				if setParam == nil {
 					c.Bad("C12.3-current-revision-source", name, as.Pos(), "status.currentRevision is assigned in a function without the set at hand")
-					return true
+					continue
 				}
-				c.Check(f2.Term(as.Rhs[0]).Key() == c.WantTerm(f2, as.Pos(), "$1.UpdateRevision", lsel.X).Key(), "C12.3-current-revision-source", name, as.Pos(),
+				c.Check(f2.Term(fs.Rhs).Key() == c.WantTerm(f2, as.Pos(), "$1.UpdateRevision", lselX).Key(), "C12.3-current-revision-source", name, as.Pos(),
 					"completion rule assigns the update revision", "the completion rule assigns something other than status.updateRevision")
-				want := c.Want(f2, as.Pos(), `$1.Spec.UpdateStrategy.Type == "RollingUpdate" && $2.UpdatedReplicas == $2.Replicas && $2.ReadyReplicas == $2.Replicas`, setParam, lsel.X)
+				want := c.Want(f2, as.Pos(), `$1.Spec.UpdateStrategy.Type == "RollingUpdate" && $2.UpdatedReplicas == $2.Replicas && $2.ReadyReplicas == $2.Replicas`, setParam, lselX)
 				c.Implies(a2.StateBefore(as), want, "C12.3-completion-rule-guard", name, as.Pos())
 			}
-			return true
-		})
+		}
 	}
 	c.Floor("C12.3-observed-generation-assignments", nGen, 1)
 	c.Floor("C12.3-current-revision-assignments", nCur, 2)
@@ -359,11 +359,35 @@ func (c *Ctx) currentRevisionChoice() {
 			c.Implies(st, c.Want(fn, as.Pos(), "$1 == nil", id), "C12.3-current-revision-choice", name, as.Pos())
 			return true
 		}
-		c.Implies(st, c.Want(fn, as.Pos(), "$1.Name == $2.Status.CurrentRevision", as.Rhs[0], setParam), "C12.3-current-revision-choice", name, as.Pos())
-		// and the chosen one comes from the listed revisions
+		// decided on the state after the assignment, path by path: the variable is nil (nothing found),
+		// or it is a cell of the listed revisions whose name is the stored status.currentRevision
+		// (the search may sit in a helper: the engine expands it)
 		revs := fi.Decl.Type.Params.List[1].Names[0]
-		root := rootIdent(as.Rhs[0])
-		c.Check(root != nil && info.ObjectOf(root) == info.ObjectOf(revs), "C12.3-current-revision-choice-listed", name, as.Pos(), "chosen from the listed revisions", "the current revision is not one of the listed revisions")
+		after := an.StateAfter(as)
+		wantName := c.Want(fn, as.End(), "$1.Name == $2.Status.CurrentRevision", id, setParam)
+		isNil := c.Want(fn, as.End(), "$1 == nil", id)
+		okName, okListed := after.Reachable(), after.Reachable()
+		var witness string
+		for _, d := range after.D {
+			one := gf.State{D: []*gf.Disj{d}}
+			if z, _ := one.Implies(isNil); z {
+				continue
+			}
+			if g, _ := one.Implies(wantName); !g {
+				okName = false
+				witness = d.String()
+			}
+			cell := cellTermOf(one, gf.Var(cur))
+			if cell == nil || cell.A[0].Key() != gf.Var(info.ObjectOf(revs)).Key() {
+				okListed = false
+			}
+		}
+		if okName {
+			c.OK("C12.3-current-revision-choice", name, as.Pos(), "on every path the chosen revision is nil or named by the stored status.currentRevision")
+		} else {
+			c.Bad("C12.3-current-revision-choice", name, as.Pos(), "required after the assignment: "+isNil.String()+" || "+wantName.String()+"; a path has only "+clip(witness, 600))
+		}
+		c.Check(okListed, "C12.3-current-revision-choice-listed", name, as.Pos(), "chosen from the listed revisions", "the current revision is not one of the listed revisions")
 		return true
 	})
 	c.Floor("C12.3-current-revision-choice", n, 2)
